@@ -1,5 +1,5 @@
 """C04 — expressions evaluate to what the function documentation prescribes."""
-import json
+import json, itertools
 import lib, gen, common, exprgen
 from common import clone_cfg, mkcase, rows
 
@@ -62,6 +62,33 @@ def run(ctx):
     oexprs += ['(filter_keys . (or (= . "b") (= . "e")))', '(filter_keys . (and (!= . "b") (!= . "c")))', '(filter_keys . (and (!= . "a") (!= . "d")))', '(filter_values . (> . 2))', '(filter_values . (< . 5))',
                '(keys .)', '(values .)', '(entries .)', '(sort_by_keys .)', '(sort_by_values .)', '(sort_by_values_by . (- 0 .))', '(keys (filter_keys . (!= . "b")))', '(values (filter_values . (!= . 3)))',
                '(stringify (filter_keys . (!= . "c")))', '(keys (put (filter_keys . (!= . "a")) "a" 0))']
+    # every modelled function on boundary arguments: each position ranges over values of every type, empty and negative and fractional and
+    # huge numbers, absent: sampled per function in the quick tier, all combinations (arity <= 2) in the thorough tier
+    first = ['[1, 2, 3]', '[]', '"héllo"', '""', '{"a": 1, "b": 2}', '{}', '5', '-1', '2.5', '0', 'null', 'true', '.nothing', '[[1], [2, 3], []]', '["b", "a", "b"]', '[3, 1, 2, 1]', '"a,b,,c"', '[{"k": "x", "v": 1}, {"k": 1, "v": 2}, {"v": 3}]']
+    other = ['0', '1', '-1', '2', '99', '2.5', '-0.5', '1e3', '18446744073709551615', '""', '"a"', '","', '"é"', '[]', '[1]', '{}', 'null', 'true', '.nothing', '.', '(+ . 1)', '.k', '.v']
+    skipf = set(['exec', 'trigger', 'now', 'env', 'range', 'parse_selection', '|', 'define', ':', 'set', '@', 'format_time', 'parse_time', 'parse_time_with_zone', 'match', 'extract_regex_group'])
+    bcount = 0
+    for f in exprgen.table():
+        if f['name'] in skipf or f['name'].startswith('"'): continue
+        ar = [n for n in range(f['min'], (f['max'] if f['max'] is not None else f['min'] + 1) + 1) if n <= 3]
+        combos = []
+        for n in ar:
+            if n == 0: combos.append([])
+            elif ctx['tier'] == 'thorough' and n <= 2: combos += [[a] + list(o) for a in first for o in itertools.product(other, repeat=n - 1)]
+            else: combos += [[rnd.choice(first)] + [rnd.choice(other) for _ in range(n - 1)] for _ in range(24)]
+        for args in combos:
+            bcount += 1
+            corpus.append(mkcase('BF%d' % bcount, lib.new_cfg(select=['(%s %s)=x' % (f['name'], ' '.join(args))]), b'{"k": "x", "v": 7}'))
+    # extractors and JSON literals as expressions: indices at and beyond both ends, parent chains, keys that need quoting,
+    # number / string / nested literals in every spelling the JSON reader accepts
+    xin = b'{"a": {"b": [10, 20, 30], "c c": 1, "\u00e9": 2}, "arr": [[1, 2], [3], []], "": 5, "n": null}'
+    xexprs = ['.a.b', '.a.b#0', '.a.b#2', '.a.b#3', '.a.b#-1', '.a.b#-3', '.a.b#-4', '.arr#0#1', '.arr#2#0', '.arr#9#9', '#0', '.a#0', '.n.x', '.zz.y', '.a."c c"', '.a.é', '."".x', '.""',
+              '(| .a.b ^)', '(| .a (| .b ^^))', '(| .a (| .b ^^^))', '(| .a (| .b ^^^^))', '(map .a.b ^^)', '(map .arr (map . ^^^.n))', '^', '^^',
+              '1e2', '-0.5E-3', '1E+2', '0', '-0', '12345678901234567890', '1.0', '"a\\u00e9\\n\\"q\\"\\\\"', '""', '[1, [2, {"k": [ ] }], "x"]', '{ "a" : 1 , "b":[ ] }', '[]', '{}', 'null', 'true', 'false',
+              '(size [1, 2, 3])', '(get {"k": {"j": 7}} "k")', '(get [5, 6] 1)', '(= [1, 2.0] [1.0, 2])', '(= {"a": 1, "b": 2} {"b": 2, "a": 1})', '(size "a\\u00e9")', '(+ 1e2 -0.5E-3)',
+              '(take [1,2,3] 2)', '(take\t[1,2,3]\t2)', '( take [1,2,3] 2 )', '(concat "a" "b" "c")']
+    for ei, e in enumerate(xexprs):
+        corpus.append(mkcase('X%d' % ei, lib.new_cfg(select=[e + '=x']), xin))
     for oi, ob in enumerate(objs):
         for ei, e in enumerate(oexprs):
             corpus.append(mkcase('O%d_%d' % (oi, ei), lib.new_cfg(select=[e + '=x']), ob))
